@@ -1,0 +1,23 @@
+//go:build verif
+
+package vm
+
+import "github.com/risor-io/risor/op"
+
+// Verification hooks (build tag "verif"). They only observe; with the tag off
+// the call sites compile away (verifOn is a false constant).
+const verifOn = true
+
+// VerifStep, when set, is called before every instruction is dispatched.
+var VerifStep func(vm *VirtualMachine, fp, ip int, opcode op.Code, sp int)
+
+// VerifEvent, when set, is called at the run-state linearization points:
+// "start" (a = startCount), "fire" (a = startCount the watcher was armed for),
+// "halt_seen", "stop", "clone" (other = the clone).
+var VerifEvent func(ev string, vm *VirtualMachine, a int64, other *VirtualMachine)
+
+// VerifSP returns the operand stack pointer (-1 = empty stack).
+func (vm *VirtualMachine) VerifSP() int { return vm.sp }
+
+// VerifHalt returns the current value of the halt flag.
+func (vm *VirtualMachine) VerifHalt() int32 { return vm.halt }
